@@ -331,6 +331,15 @@ Theorem C09_clean_slate_set_reference : forall (s : kbatch N) x ops,
   map (shift_obs (b_total s)) (kb_trace trunc rint kl p (kb_set_reference trunc rint p kb_init x) ops).
 Proof. intros s x ops. exact (clean_slate_set_reference trunc rint kl p s x ops). Qed.
 
+(** the instance a seeded change (C02_R8) broke in the code: a set_reference that directly follows a reported drift
+    cancels the pending adoption of the drifted batch - what follows is the trace of a new detector on the reference the
+    user handed over, whatever batch had drifted *)
+Theorem C09_set_reference_after_drift_cancels_adoption : forall (s : kbatch N) r x ops,
+  b_ds s = DDrift -> b_refdata s = Some r ->
+  kb_trace trunc rint kl p (kb_set_reference trunc rint p s x) ops =
+  map (shift_obs (b_total s)) (kb_trace trunc rint kl p (kb_set_reference trunc rint p kb_init x) ops).
+Proof. intros s r x ops _ _. exact (clean_slate_set_reference trunc rint kl p s x ops). Qed.
+
 Theorem C09_clean_slate_batch_states : forall (s : kbatch N) x ops,
   Forall2 (btwin (b_total s))
           (kb_states trunc rint kl p (kb_set_reference trunc rint p s x) ops)
@@ -449,6 +458,7 @@ Print Assumptions C09_batch_drifted_becomes_reference.
 Print Assumptions C09_batch_refdata.
 Print Assumptions C09_clean_slate_batch.
 Print Assumptions C09_clean_slate_set_reference.
+Print Assumptions C09_set_reference_after_drift_cancels_adoption.
 Print Assumptions C09_clean_slate_batch_states.
 Print Assumptions C09_lifecycle_batch_total.
 Print Assumptions C09_lifecycle_batch_since.
